@@ -606,7 +606,9 @@ def run(run):
         unsup_names = [vid for vid, p in
                        minecraft.KNOWN_MINECRAFT_VERSIONS.items()
                        if vid not in minecraft.SUPPORTED_MINECRAFT_VERSIONS]
-        bad_versions += unsup_names[:3] + unsup_names[-3:]
+        # every known-but-unsupported name - also those whose protocol number
+        # is shared with a supported release (support is per name)
+        bad_versions += unsup_names
         for bv in bad_versions:
             for how in ('allowed', 'allowed+good', 'initial'):
                 run.case(('construct', repr(bv), how))
@@ -633,7 +635,7 @@ def run(run):
                               'unknown or unsupported version',
                               {'version': repr(bv), 'how': how})
         # accepted forms
-        for good in (757, '1.18.1', '1.8', 47):
+        for good in [757, 47] + list(minecraft.SUPPORTED_MINECRAFT_VERSIONS):
             try:
                 Connection('127.0.0.1', 1, allowed_versions=[good],
                            initial_version=good)
